@@ -5,7 +5,9 @@ messages concurrently.  `as_bytes()` of one message must not depend on another m
 This script runs the real method (unmodified, real threads gated line by line through sys.settrace on every code
 object of message/_base.py, message/packer.py and message/avp/avp.py) for two different messages under every sampled
 single-preemption schedule "thread 0 runs k lines, thread 1 runs its whole call, thread 0 finishes" and compares both
-results with the sequential encodings (which equal the wire input the messages were decoded from).
+results with the sequential encodings (which equal the wire input the messages were decoded from).  Second part: two
+threads calling `find_avps` on one freshly decoded message (same path / two paths through the same Grouped AVPs, which
+are decoded lazily on first access) under the same schedules; each must return what it returns alone.
 
 Prints one JSON document: {"schedules": n, "fails": [...]}.
 """
@@ -80,6 +82,57 @@ def main():
                                   "real": str([x.hex() if isinstance(x, bytes) else x for x in got])[:600],
                                   "expected": str([wa.hex(), wb.hex()])[:600]})
                     break
+    # two threads searching one freshly decoded message at the same time (application threads sharing a received
+    # message): each search returns what it returns when run alone
+    grp = gen.rfc_wire(456, 0, 0x40, gen.rfc_wire(432, 0, 0x40, (7).to_bytes(4, "big")) + gen.rfc_wire(448, 0, 0x40, (9).to_bytes(4, "big"))
+                       + gen.rfc_wire(432, 0, 0x40, (8).to_bytes(4, "big")))
+    w3 = wire(272, 31, [gen.rfc_wire(263, 0, 0x40, b"sess;three"), grp, gen.rfc_wire(1, 0, 0x40, b"u3"), grp])
+    paths = [((456, 0), (432, 0)), ((456, 0), (448, 0))]
+
+    def show(avps):
+        return [a.as_bytes().hex() for a in avps]
+    for plain in (True, False):
+        alone = [show(Message.from_bytes(w3, plain_msg=plain).find_avps(*p)) for p in paths]
+        count = [0]
+        cs = set(codes)
+
+        def tracer2(frame, event, arg):
+            if event == "call" and frame.f_code in cs:
+                def local(fr, ev, ar):
+                    if ev == "line":
+                        count[0] += 1
+                    return local
+                return local
+            return None
+        m = Message.from_bytes(w3, plain_msg=plain)
+        sys.settrace(tracer2)
+        try:
+            m.find_avps(*paths[0])
+        finally:
+            sys.settrace(None)
+        nlines = count[0]
+        ks = sorted(set(list(range(0, min(nlines, 60))) + list(range(0, nlines, max(1, nlines // 12))) + [nlines]))
+        for pa, pb in ((0, 0), (0, 1)):
+            broke = False
+            for k in ks:
+                m = Message.from_bytes(w3, plain_msg=plain)
+                res = linesched.run_threads([[lambda: show(m.find_avps(*paths[pa]))], [lambda: show(m.find_avps(*paths[pb]))]],
+                                            [0] * k + [1] * 100000, codes, timeout=5.0)
+                total += 1
+                try:
+                    got = (res[0][0], res[1][0])
+                except Exception as e:  # noqa
+                    got = (None, repr(e))
+                if got != (alone[pa], alone[pb]):
+                    fails.append({"what": "two threads searching one freshly decoded message at the same time: find_avps returns "
+                                          "something else than when the search runs alone",
+                                  "kind": "race", "line": f"find_avps x2 (plain_msg={plain}, paths {paths[pa]} / {paths[pb]}), "
+                                                          f"thread 0 preempted after {k} lines",
+                                  "real": str(got)[:600], "expected": str((alone[pa], alone[pb]))[:600]})
+                    broke = True
+                    break
+            if broke:
+                break
     print(json.dumps({"schedules": total, "fails": fails}))
     os._exit(0)
 
